@@ -175,6 +175,48 @@ fn verify(rrsig: &Rrsig<Bytes, StoredName>, dnskey: &Dnskey<Vec<u8>>, recs: &[SR
     rrsig.verify_signed_data(dnskey, &buf).map_err(|e| format!("{:?}", e))
 }
 
+/// The records as a resolver's client gets them behind an alias: the question asks for `alias.<apex>`, the answer is a CNAME
+/// to the owner followed by the records. A compressing sender writes the CNAME's target as labels plus a pointer to
+/// the apex in the question, and the records' owners as a bare pointer to that target - a name reached through
+/// two pointers. Ok(true): verified; Ok(false): layout not applicable.
+fn via_cname_message(rrsig: &Rrsig<Bytes, StoredName>, dnskey: &Dnskey<Vec<u8>>, recs: &[SRec], apex: &[u8]) -> Result<bool, String> {
+    use domain::base::message_builder::{MessageBuilder, TreeCompressor};
+    let owner = recs[0].owner().as_slice().to_vec();
+    if w::lower(&owner) == w::lower(apex) || !crate::zmodel::is_at_or_below(&w::lower(&owner), &w::lower(apex)) {
+        return Ok(false);
+    }
+    let mut alias = vec![5, b'a', b'l', b'i', b'a', b's'];
+    alias.extend_from_slice(apex);
+    if alias.len() > 255 {
+        return Ok(false);
+    }
+    let mut mb = MessageBuilder::from_target(TreeCompressor::new(Vec::new())).unwrap().question();
+    mb.push((sname(&alias), recs[0].rtype())).map_err(|_| "push".to_string())?;
+    let mut ab = mb.answer();
+    ab.push((sname(&alias), Class::IN, Ttl::from_secs(60), domain::rdata::Cname::new(sname(&owner)))).map_err(|_| "push".to_string())?;
+    for r in recs {
+        if ab.push(r.clone()).is_err() {
+            return Ok(false);
+        }
+    }
+    let wire = ab.finish().into_target();
+    let msg = domain::base::Message::from_octets(Bytes::from(crate::ctx::exact(&wire))).map_err(|_| "message".to_string())?;
+    let mut parsed: Vec<Record<domain::base::ParsedName<Bytes>, ZoneRecordData<Bytes, domain::base::ParsedName<Bytes>>>> = Vec::new();
+    for r in msg.answer().map_err(|_| "answer".to_string())?.limit_to::<ZoneRecordData<Bytes, domain::base::ParsedName<Bytes>>>().skip(1) {
+        match r {
+            Ok(r) => parsed.push(r),
+            Err(_) => return Ok(false),
+        }
+    }
+    if parsed.len() != recs.len() {
+        return Ok(false);
+    }
+    let mut buf: Vec<u8> = Vec::new();
+    rrsig.signed_data(&mut buf, &mut parsed).map_err(|_| "signed_data refuses the records parsed from the message".to_string())?;
+    rrsig.verify_signed_data(dnskey, &buf).map_err(|e| format!("{:?}", e))?;
+    Ok(true)
+}
+
 fn one(c: &mut Ctx, fam: &str, idx: u64, keys: &[TestKey], log: &mut Option<std::fs::File>) {
     let mut rng = c.case_rng(fam, idx);
     let tk = &keys[rng.below(keys.len())];
@@ -475,6 +517,18 @@ fn one(c: &mut Ctx, fam: &str, idx: u64, keys: &[TestKey], log: &mut Option<std:
                 return;
             }
             c.count("wildcard_expansions_verified", 1);
+            match ctx::catch(|| via_cname_message(&rrsig, &tk.dnskey, &v, &apex)) {
+                Ok(Ok(true)) => c.count("verified_behind_an_alias_in_a_compressed_message_wildcard", 1),
+                Ok(Ok(false)) => {}
+                Ok(Err(e)) => {
+                    c.violation(&format!("verify-fails:behind-alias-in-compressed-message:wildcard-expanded:TYPE{}", t), &format!("a wildcard-expanded RRset behind a CNAME in a compressed message (owners written as a pointer to the CNAME's target) does not verify: {}", e), rp(c, json!({})));
+                    return;
+                }
+                Err(pi) => {
+                    c.violation(&format!("panic:{}", pi.site()), &format!("panic verifying records parsed from a compressed message: {} at {}:{}", pi.msg, pi.file, pi.line), rp(c, json!({})));
+                    return;
+                }
+            }
             let ce = rrsig.wildcard_closest_encloser(&v[0]);
             if ce.as_ref().map(|n| w::lower(n.as_slice())) != Some(w::lower(rest)) {
                 c.violation("wildcard-closest-encloser", &format!("closest encloser of an expanded wildcard answer is {:?}, should be {}", ce.map(|n| w::name_text(n.as_slice())), w::name_text(rest)), rp(c, json!({})));
@@ -511,6 +565,18 @@ fn one(c: &mut Ctx, fam: &str, idx: u64, keys: &[TestKey], log: &mut Option<std:
                 return;
             }
             c.count("verified_through_compressed_message", 1);
+            match ctx::catch(|| via_cname_message(&rrsig, &tk.dnskey, &recs, &apex)) {
+                Ok(Ok(true)) => c.count("verified_behind_an_alias_in_a_compressed_message", 1),
+                Ok(Ok(false)) => {}
+                Ok(Err(e)) => {
+                    c.violation(&format!("verify-fails:behind-alias-in-compressed-message:TYPE{}", t), &format!("an RRset behind a CNAME in a compressed message (owners written as a pointer to the CNAME's target) does not verify: {}", e), rp(c, json!({})));
+                    return;
+                }
+                Err(pi) => {
+                    c.violation(&format!("panic:{}", pi.site()), &format!("panic verifying records parsed from a compressed message: {} at {}:{}", pi.msg, pi.file, pi.line), rp(c, json!({})));
+                    return;
+                }
+            }
         }
     }
     // --- alterations must break it
@@ -558,6 +624,19 @@ fn one(c: &mut Ctx, fam: &str, idx: u64, keys: &[TestKey], log: &mut Option<std:
         pk[b / 8] ^= 1 << (b % 8);
         if let Ok(k2) = Dnskey::new(tk.dnskey.flags(), tk.dnskey.protocol(), tk.dnskey.algorithm(), pk) {
             alts.push(("public-key-bit", rrsig.clone(), recs.clone(), k2));
+        }
+    }
+    // the same key material under another algorithm number is another key (other RDATA, other key tag); likewise the
+    // signature under another algorithm number
+    for a2 in [1u8, 3, 5, 6, 7, 8, 10, 12, 13, 14, 15, 16, 253, rng.u8()] {
+        if a2 == alg.to_int() {
+            continue;
+        }
+        if let Ok(k2) = Dnskey::new(tk.dnskey.flags(), tk.dnskey.protocol(), SecurityAlgorithm::from_int(a2), tk.dnskey.public_key().clone()) {
+            alts.push(("key-algorithm", rrsig.clone(), recs.clone(), k2));
+        }
+        if rng.chance(1, 4) {
+            alts.push(("rrsig-algorithm", mk(t, SecurityAlgorithm::from_int(a2), lab, ttl, exp, inc, tag, &signer_spelled, &sig), recs.clone(), tk.dnskey.clone()));
         }
     }
     {
@@ -698,6 +777,74 @@ fn key_tags(c: &mut Ctx, log: &mut Option<std::fs::File>) {
     }
 }
 
+/// Signatures the ring back end can verify but not make (RSA/SHA-1, algorithms 5 and 7, which share one verifier): the
+/// example of RFC 4035 appendix B.6 (a.z.w.example. MX, expanded from *.w.example.) verifies under the zone's key, and
+/// under that key with any other algorithm number, with a flipped bit, or with the RRSIG relabelled, it does not.
+fn rfc_vectors(c: &mut Ctx) {
+    let fam = "rfc-vectors";
+    let b64 = |t: &str| -> Vec<u8> {
+        match crate::refimpl::b64::dec64(&t.chars().filter(|ch| !ch.is_whitespace()).collect::<String>()) {
+            crate::refimpl::b64::Dec::Ok(v) | crate::refimpl::b64::Dec::Tolerated(v) => v,
+            _ => vec![],
+        }
+    };
+    let pk = b64("AQOy1bZVvpPqhg4j7EJoM9rI3ZmyEx2OzDBVrZy/lvI5CQePxXHZS4i8dANH4DX3tbHol61ek8EFMcsGXxKciJFHyhl94C+NwILQdzsUlSFovBZsyl/NX6yEbtw/xN9ZNcrbYvgjjZ/UVPZIySFNsgEYvh0z2542lzMKR4Dh8uZffQ==");
+    let sig = b64("OMK8rAZlepfzLWW75Dxd63jy2wswESzxDKG2f9AMN1CytCd10cYISAxfAdvXSZ7xujKAtPbctvOQ2ofO7AZJ+d01EeeQTVBPq4/6KCWhqe2XTjnkVLNvvhnc0u28aoSsG0+4InvkkOHknKxw4kX18MMR34i8lC36SR5xBni8vHI=");
+    let example = b"\x07example\x00".to_vec();
+    let owner = b"\x01a\x01z\x01w\x07example\x00".to_vec();
+    let mut mx = vec![0u8, 1];
+    mx.extend_from_slice(b"\x02ai\x07example\x00");
+    let recs = vec![srecord(&owner, 15, 3600, &mx)];
+    // 20040509183619 / 20040409183619
+    let (exp, inc) = (1084127779u32, 1081535779u32);
+    let mk = |alg: u8, sig: &[u8]| Rrsig::<Bytes, StoredName>::new(Rtype::MX, SecurityAlgorithm::from_int(alg), 2, Ttl::from_secs(3600), Timestamp::from(exp), Timestamp::from(inc), 38519, sname(&example), Bytes::copy_from_slice(sig)).unwrap();
+    let key = |alg: u8, pk: &[u8]| Dnskey::<Vec<u8>>::new(256, 3, SecurityAlgorithm::from_int(alg), pk.to_vec());
+    let genuine = match ctx::catch(|| verify(&mk(5, &sig), &key(5, &pk).unwrap(), &recs)) {
+        Ok(r) => r,
+        Err(pi) => {
+            c.violation(&format!("panic:{}", pi.site()), &format!("panic verifying the RFC 4035 B.6 example: {}", pi.msg), c.replay_of(fam, 0, json!({})));
+            return;
+        }
+    };
+    if let Err(e) = genuine {
+        c.violation("rfc-vector:genuine-refused", &format!("the RRSIG of RFC 4035 appendix B.6 (RSA/SHA-1, wildcard expansion) does not verify under the zone's key: {}", e), c.replay_of(fam, 0, json!({})));
+        return;
+    }
+    c.count("rfc_vectors_verified", 1);
+    let mut alts: Vec<(String, Rrsig<Bytes, StoredName>, Dnskey<Vec<u8>>)> = Vec::new();
+    for a in 0..=255u8 {
+        if a != 5 {
+            if let Ok(k) = key(a, &pk) {
+                alts.push((format!("key-algorithm-{}", a), mk(5, &sig), k));
+            }
+            alts.push((format!("rrsig-algorithm-{}", a), mk(a, &sig), key(5, &pk).unwrap()));
+        }
+    }
+    for bit in 0..sig.len() * 8 {
+        let mut s2 = sig.clone();
+        s2[bit / 8] ^= 1 << (bit % 8);
+        alts.push(("signature-bit".into(), mk(5, &s2), key(5, &pk).unwrap()));
+    }
+    for bit in 0..pk.len() * 8 {
+        let mut p2 = pk.clone();
+        p2[bit / 8] ^= 1 << (bit % 8);
+        if let Ok(k) = key(5, &p2) {
+            alts.push(("public-key-bit".into(), mk(5, &sig), k));
+        }
+    }
+    for (what, sg, k) in alts {
+        match ctx::catch(|| verify(&sg, &k, &recs)) {
+            Ok(Ok(())) => {
+                let cls = what.trim_end_matches(|ch: char| ch.is_ascii_digit() || ch == '-').to_string();
+                c.violation(&format!("altered-still-verifies:{}:rsasha1-vector", cls), &format!("the RSA/SHA-1 example of RFC 4035 B.6 still verifies after altering [{}]", what), c.replay_of(fam, 0, json!({"altered": what})));
+            }
+            Ok(Err(_)) => c.count("alterations_rejected", 1),
+            Err(pi) => c.violation(&format!("panic:{}", pi.site()), &format!("panic verifying the RFC 4035 B.6 example after altering [{}]: {} at {}:{}", what, pi.msg, pi.file, pi.line), c.replay_of(fam, 0, json!({"altered": what}))),
+        }
+        c.evals_n(1);
+    }
+}
+
 pub fn run(c: &mut Ctx) {
     c.families(2);
     let mut log = std::fs::File::create(c.logdir.join(format!("dnssec_{}.jsonl", c.shard))).ok();
@@ -708,6 +855,10 @@ pub fn run(c: &mut Ctx) {
         return;
     }
     key_tags(c, &mut log);
+    if c.shard == 0 && !c.replaying() {
+        rfc_vectors(c);
+        c.floor("rfc_vectors_verified", 1);
+    }
     let fam = "rrsets";
     let total = c.total(40_000, 1_500_000);
     for idx in c.cases(fam, total) {
@@ -718,7 +869,7 @@ pub fn run(c: &mut Ctx) {
         one(c, fam, idx, &keys, &mut log);
     }
     if !c.replaying() {
-        for k in ["signed_octets_compared", "verifications_ok", "alterations_rejected", "wildcard_expansions_verified", "verified_through_compressed_message", "ds_digests_compared", "key_tags_compared", "invalid_validity_periods_refused"] {
+        for k in ["signed_octets_compared", "verifications_ok", "alterations_rejected", "wildcard_expansions_verified", "verified_through_compressed_message", "ds_digests_compared", "key_tags_compared", "invalid_validity_periods_refused", "verified_behind_an_alias_in_a_compressed_message", "verified_behind_an_alias_in_a_compressed_message_wildcard"] {
             c.floor(k, 5);
         }
     }
